@@ -181,6 +181,7 @@ struct Ctx {
     calls: u64,
     max_ratio_num: usize,
     panics_seen: BTreeSet<String>,
+    hits_per_id: std::collections::BTreeMap<&'static str, u64>,
 }
 
 impl Ctx {
@@ -197,7 +198,13 @@ impl Ctx {
             let short: String = o.panic_msg.chars().take(90).collect();
             match known_class(fmt, bytes) {
                 Some(id) => {
-                    self.summary.known_hit(id, case, &format!("{} decoder panicked on {} bytes: {}", fmt_name(fmt), bytes.len(), short));
+                    // the summary keeps at most 2000 hits: record a few per finding, count all
+                    let n = self.hits_per_id.entry(id).or_insert(0);
+                    *n += 1;
+                    if *n <= 20 {
+                        self.summary.known_hit(id, case, &format!("{} decoder panicked on {} bytes: {}", fmt_name(fmt), bytes.len(), short));
+                    }
+                    self.summary.count("known_hit", id);
                     self.panics_seen.insert(format!("{}: {}", id, generalise(&short)));
                 }
                 None => self.summary.oracle_failure(
@@ -450,6 +457,7 @@ fn main() {
         calls: 0,
         max_ratio_num: 0,
         panics_seen: BTreeSet::new(),
+        hits_per_id: Default::default(),
     };
     let all = bases(&mut rng, thorough);
 
